@@ -13,6 +13,7 @@ import (
 	"strconv"
 	"strings"
 	"sync"
+	"syscall"
 	"time"
 
 	"golang.org/x/tools/go/ssa"
@@ -142,13 +143,23 @@ func runCheck(prop, tier, repo, verif, only string, updateBaseline bool) int {
 	evPath := filepath.Join(verif, "evidence", prop+".json")
 	if only != "" {
 		// partial runs (debugging, replay of one obligation) must not replace the property's evidence
-		evPath = filepath.Join(verif, "out", prop, "evidence_partial.json")
+		evPath = filepath.Join(verif, "out", prop+"-partial", "evidence_partial.json")
 		os.MkdirAll(filepath.Dir(evPath), 0o755)
 	}
 	os.MkdirAll(filepath.Dir(evPath), 0o755)
 	replayDir := filepath.Join(verif, "replays", prop)
 	os.MkdirAll(replayDir, 0o755)
-	outDir := filepath.Join(verif, "out", prop)
+	// scratch directory of this run: one per property and tier (the two tiers of a property may run at the same
+	// time); a second run of the same property and tier at the same time gets its own directory
+	outDir := filepath.Join(verif, "out", prop+"-"+tier)
+	os.MkdirAll(filepath.Join(verif, "out"), 0o755)
+	if lf, err := os.OpenFile(outDir+".lock", os.O_CREATE|os.O_RDWR, 0o644); err == nil {
+		if syscall.Flock(int(lf.Fd()), syscall.LOCK_EX|syscall.LOCK_NB) != nil {
+			outDir = fmt.Sprintf("%s-%d", outDir, os.Getpid())
+			defer os.RemoveAll(outDir)
+		}
+		defer lf.Close()
+	}
 	os.RemoveAll(outDir)
 	os.MkdirAll(outDir, 0o755)
 
@@ -176,7 +187,7 @@ func runCheck(prop, tier, repo, verif, only string, updateBaseline bool) int {
 		return fail("load: " + err.Error())
 	}
 	w.specFn("")
-	evalAllFacts(w, filepath.Join(verif, "out", prop), prop)
+	evalAllFacts(w, outDir, prop)
 
 	// select functions
 	var sel []*FuncContract
@@ -545,7 +556,10 @@ func firstLine(s string) string {
 
 func writeEvidence(path string, ev map[string]interface{}) {
 	b, _ := json.MarshalIndent(ev, "", " ")
-	os.WriteFile(path, b, 0o644)
+	tmp := fmt.Sprintf("%s.%d.tmp", path, os.Getpid())
+	if os.WriteFile(tmp, b, 0o644) == nil {
+		os.Rename(tmp, path) // atomic: a reader never sees half a file when two tiers finish together
+	}
 }
 
 func writeReplay(dir, prop string, o *Obligation, extra map[string]interface{}, why string) string {
@@ -668,11 +682,11 @@ func evalAllFacts(w *World, outDir string, prop string) {
 		fmt.Fprintf(&b, "//go:build verif\n\npackage %s\n\nimport (\n\t\"fmt\"\n\t\"testing\"\n)\n\n", name)
 		// a fact that panics is a fact that does not hold (and must not take the other facts with it)
 		b.WriteString("func zzVerifFact(t *testing.T, name string, f func() bool) {\n\tspecWitness = \"\"\n\tok := false\n\tfunc() {\n\t\tdefer func() {\n\t\t\tif r := recover(); r != nil {\n\t\t\t\tspecWitness = fmt.Sprintf(\"panic: %v %s\", r, specWitness)\n\t\t\t}\n\t\t}()\n\t\tok = f()\n\t}()\n\tif ok {\n\t\tt.Logf(\"FACT-OK %s\", name)\n\t} else {\n\t\tt.Logf(\"FACT-WITNESS %s: %q\", name, specWitness)\n\t\tt.Errorf(\"FACT-FAILED %s\", name)\n\t}\n}\n\n")
-		b.WriteString("func TestZZVerifFacts(t *testing.T) {\n")
+		// one test function per fact: a fact whose evaluation crashes the test binary (a panic in a goroutine of
+		// the real code) can then be told from the others and be evaluated again on its own
 		for _, fn := range byPkg[pp] {
-			fmt.Fprintf(&b, "\tzzVerifFact(t, %q, %s)\n", fn, fn)
+			fmt.Fprintf(&b, "func TestZZVerifFact_%s(t *testing.T) {\n\tzzVerifFact(t, %q, %s)\n}\n\n", fn, fn, fn)
 		}
-		b.WriteString("}\n")
 		add(filepath.Join(dir, "zz_verif_facts_test.go"), []byte(b.String()))
 		runnable = append(runnable, pp)
 	}
@@ -686,29 +700,69 @@ func evalAllFacts(w *World, outDir string, prop string) {
 		go func(pp string) {
 			defer wg.Done()
 			t0 := time.Now()
-			cmd := exec.Command("go", "test", "-tags", "verif", "-overlay", ovFile, "-vet=off", "-count=1", "-timeout", "120s", "-run", "^TestZZVerifFacts$", "-v", pp)
-			cmd.Dir = w.RepoDir
-			cmd.Env = append(os.Environ(), "GOFLAGS=-mod=mod", "GOPROXY=off", "GOSUMDB=off", "GOTOOLCHAIN=local")
-			out, _ := cmd.CombinedOutput()
-			ms := time.Since(t0).Milliseconds() / int64(len(byPkg[pp]))
-			mu.Lock()
-			defer mu.Unlock()
-			for _, fn := range byPkg[pp] {
+			runFacts := func(rx string) string {
+				cmd := exec.Command("go", "test", "-tags", "verif", "-overlay", ovFile, "-vet=off", "-count=1", "-timeout", "300s", "-run", rx, "-v", pp)
+				cmd.Dir = w.RepoDir
+				cmd.Env = append(os.Environ(), "GOFLAGS=-mod=mod", "GOPROXY=off", "GOSUMDB=off", "GOTOOLCHAIN=local")
+				out, _ := cmd.CombinedOutput()
+				return string(out)
+			}
+			logLine := func(fn, why string) {
+				if lf, err := os.OpenFile(filepath.Join(filepath.Dir(outDir), "fact_failures.log"), os.O_APPEND|os.O_CREATE|os.O_WRONLY, 0o644); err == nil {
+					fmt.Fprintf(lf, "%s %s %s::%s %s\n", time.Now().Format(time.RFC3339), prop, pp, fn, why)
+					lf.Close()
+				}
+			}
+			classify := func(out, fn string) (string, string) {
 				switch {
-				case strings.Contains(string(out), "FACT-OK "+fn+"\n"):
-					w.FactResult[pp+"::"+fn] = factRes{"discharged", "", ms}
-				case strings.Contains(string(out), "FACT-FAILED "+fn+"\n"):
+				case strings.Contains(out, "FACT-OK "+fn+"\n"):
+					return "discharged", ""
+				case strings.Contains(out, "FACT-FAILED "+fn+"\n"):
 					why := "the expression evaluates to false on the real code"
-					if m := regexp.MustCompile(`FACT-WITNESS `+regexp.QuoteMeta(fn)+`: (".*")`).FindStringSubmatch(string(out)); m != nil {
+					if m := regexp.MustCompile(`FACT-WITNESS `+regexp.QuoteMeta(fn)+`: (".*")`).FindStringSubmatch(out); m != nil {
 						if wtn, err := strconv.Unquote(m[1]); err == nil && wtn != "" {
 							why += "; failing input: " + wtn
 						}
 					}
-					w.FactResult[pp+"::"+fn] = factRes{"failed", why, ms}
-				default:
-					w.FactResult[pp+"::"+fn] = factRes{"unknown", "go test did not run the fact: " + lastLines(string(out), 8), ms}
+					return "failed", why
 				}
+				return "unknown", "go test did not complete the fact: " + lastLines(out, 12)
 			}
+			out := runFacts("^TestZZVerifFact_")
+			ms := time.Since(t0).Milliseconds() / int64(len(byPkg[pp]))
+			res := map[string]factRes{}
+			for _, fn := range byPkg[pp] {
+				st, why := classify(out, fn)
+				if st == "unknown" && strings.Contains(out, "FACT-") {
+					// the binary ran but ended before this fact reported (a crash outside the fact's own goroutine, or
+					// the time limit): evaluate the fact on its own; it holds if an evaluation completes with true,
+					// fails if one completes with false or if every attempt crashes
+					logLine(fn, "first evaluation did not complete: "+lastLines(out, 12))
+					crash := why
+					for attempt := 0; attempt < 3 && st == "unknown"; attempt++ {
+						o2 := runFacts("^TestZZVerifFact_" + fn + "$")
+						st, why = classify(o2, fn)
+						if st == "unknown" {
+							crash = why
+							logLine(fn, "repeated evaluation did not complete: "+lastLines(o2, 12))
+						}
+					}
+					if st == "unknown" {
+						st, why = "failed", "every evaluation of the fact ends with the real code crashing or hanging: "+crash
+					} else if st == "discharged" {
+						why = "an earlier evaluation in the same run did not complete (see out/fact_failures.log); this one did"
+					}
+				}
+				if st == "failed" {
+					logLine(fn, why)
+				}
+				res[fn] = factRes{st, why, ms}
+			}
+			mu.Lock()
+			for fn, r := range res {
+				w.FactResult[pp+"::"+fn] = r
+			}
+			mu.Unlock()
 		}(pp)
 	}
 	wg.Wait()
